@@ -214,8 +214,8 @@ def ensure_backends():
         _registered = True
 
 
-def check_of(cs):
-    """CheckSpec json -> pandera Check"""
+def check_of(cs, alias=False):
+    """CheckSpec json -> pandera Check (`alias=True`: through the documented short names eq, ne, gt, ge, lt, le, between)"""
     import pandera as pa
     ensure_backends()
     b = cs["b"]
@@ -226,6 +226,10 @@ def check_of(cs):
         if opt in cs:
             kw[opt] = cs[opt]
     C = pa.Check
+    if alias and k in ("eq", "ne", "gt", "ge", "lt", "le"):
+        return getattr(C, k)(to_py(x["v"]), **kw)
+    if alias and k == "inRange":
+        return C.between(to_py(x["lo"]), to_py(x["hi"]), include_min=x["incLo"], include_max=x["incHi"], **kw)
     if k == "eq": return C.equal_to(to_py(x["v"]), **kw)
     if k == "ne": return C.not_equal_to(to_py(x["v"]), **kw)
     if k == "gt": return C.greater_than(to_py(x["v"]), **kw)
